@@ -1136,6 +1136,12 @@ fn start_replication(
         "replicating to tcp client in the addr: {}",
         replicate_address
     );
+    #[cfg(feature = "verif_hooks")]
+    if let Some(hook) = crate::verif::link_hook() {
+        let _ = (&user, &pwd, &dbs);
+        hook(replicate_address, command_receiver, tcp_addr, is_primary);
+        return;
+    }
     let global_fut = async {
         let (mut client, _receiver) = Client::new_empty_and_receiver();
         client
